@@ -4,7 +4,7 @@ from scipy import sparse
 
 
 def mk_matrix(spec):
-    """spec: {'shape':[r,c], 'coo':[[i,j,w],...], 'fmt': csr|csc|coo|lil|dense|csr_unsorted, 'dtype': bool|int|float}"""
+    """spec: {'shape':[r,c], 'coo':[[i,j,w],...], 'fmt': csr|csc|coo|lil|dense|csr_unsorted|csr_shuffled, 'dtype': bool|int|float}"""
     r, c = spec['shape']
     coo = spec.get('coo', [])
     dt = {'bool': bool, 'int': int, 'float': float, 'uint8': np.uint8, 'int8': np.int8, 'float32': np.float32}[spec.get('dtype', 'int')]
@@ -29,6 +29,16 @@ def mk_matrix(spec):
             a, b = m.indptr[i], m.indptr[i + 1]
             m.indices[a:b] = m.indices[a:b][::-1].copy()
             m.data[a:b] = m.data[a:b][::-1].copy()
+        m.has_sorted_indices = False
+        return m
+    if fmt == 'csr_shuffled':
+        # column indices of every row in an arbitrary order, as the renumbering idiom A[p][:, p] leaves them
+        m = m.copy()
+        for i in range(r):
+            a, b = m.indptr[i], m.indptr[i + 1]
+            q = np.random.RandomState(7919 * i + 13).permutation(b - a)
+            m.indices[a:b] = m.indices[a:b][q].copy()
+            m.data[a:b] = m.data[a:b][q].copy()
         m.has_sorted_indices = False
         return m
     raise ValueError(fmt)
